@@ -370,6 +370,10 @@ def simulated_anneal_tree(
         if progbar:
             pbar.update()
 
+    # invalidate any compiled contractions and explicit contraction indices,
+    # since parents of rotated nodes hold recipes referring to the old nodes
+    tree.reset_contraction_indices()
+
     return tree
 
 
